@@ -291,6 +291,13 @@ def run(ctx):
     # statistics values are binary fields: what is stored there is shared with C04
     from . import c04
     c04.r42(ctx, repo['writer'])
+    r1015(ctx)
+    # what is re-serialised after a change of the row groups: a footer lists row groups whose pages were all written,
+    # and its num_rows follows the list (shared with C02 / C09)
+    _sa.commit_after_loop_rule(ctx, 'R10.16')
+    _sa.commit_after_loop_multi_rule(ctx, 'R10.16')
+    from . import meta_rules as _mr
+    _mr.rowcount_rule(ctx, 'R10.16', only_modules={'api', 'writer', 'util'})
     from . import callsigs as _cs
     _cs.general_rules(ctx, 'R10', ['writer.write_common_metadata', 'writer.make_part_file', 'util.update_custom_metadata',
                                     'writer.update_file_custom_metadata', 'util.metadata_from_many', 'writer.make_metadata',
@@ -384,3 +391,48 @@ def r1011(ctx, rule='R10.11'):
     ctx.ob(rule, 'writer.write_thrift:value-less-key-value-entry-is-re-serialisable', ok or not idl_opt,
            'validation `%s` raises for an absent value although the IDL declares KeyValue.value optional' % (
                norm(tests[0].test) if tests else '?'), wr.loc(tests[0]) if tests else wr.loc(f))
+
+
+def r1015(ctx, rule='R10.15'):
+    """Building a handle normalises the *representation* of parsed metadata (bytes paths to text) and nothing else: a
+    store into a parsed structure (`X[k] = E` with a field number k) in ParquetFile._parse_header / __setstate__
+    replaces field k of X by a value read from field k of that same X.  Anything else changes what is re-serialised
+    later (merge, append, metadata update) for footers written by somebody else."""
+    api = ctx.repo['api']
+    n = 0
+    for q in ('ParquetFile._parse_header', 'ParquetFile.__setstate__'):
+        f = api.func(q)
+        defs = {}
+        for st in walk_no_nested(f):
+            if isinstance(st, ast.Assign) and len(st.targets) == 1 and isinstance(st.targets[0], ast.Name):
+                defs.setdefault(st.targets[0].id, []).append(st.value)
+            if isinstance(st, ast.For) and isinstance(st.target, ast.Name):
+                defs.setdefault(st.target.id, []).append(ast.Call(func=ast.Name(id='each', ctx=ast.Load()), args=[st.iter], keywords=[]))
+
+        def resolve(e, depth=0):
+            """expression with single-definition locals substituted"""
+            if isinstance(e, ast.Name):
+                if len(defs.get(e.id, [])) == 1 and depth < 8:
+                    return resolve(defs[e.id][0], depth + 1)
+                return e.id
+            if isinstance(e, ast.Attribute):
+                return '%s.%s' % (resolve(e.value, depth), e.attr)
+            if isinstance(e, ast.Subscript):
+                return '%s[%s]' % (resolve(e.value, depth), norm(e.slice))
+            if isinstance(e, ast.Call):
+                return '%s(%s)' % (resolve(e.func, depth), ', '.join(resolve(a_, depth) for a_ in e.args))
+            return norm(e)
+        for st in walk_no_nested(f):
+            if not (isinstance(st, ast.Assign) and len(st.targets) == 1 and isinstance(st.targets[0], ast.Subscript)
+                    and isinstance(st.targets[0].slice, ast.Constant) and isinstance(st.targets[0].slice.value, int)):
+                continue
+            n += 1
+            k = st.targets[0].slice.value
+            base = resolve(st.targets[0].value)
+            val = resolve(st.value)
+            src_ok = ('%s.get(%d)' % (base, k)) in val or ('%s[%d]' % (base, k)) in val
+            ctx.ob(rule, 'api.%s:parse-time-store-rewrites-a-field-from-itself:%s' % (q, norm(st.targets[0])), src_ok,
+                   '`%s`: field %d of `%s` receives `%s`, which is not read from that field of that structure; other chunks\' / '
+                   'row groups\' own values are overwritten and the change is written out by the next re-serialisation'
+                   % (norm(st), k, base, val[:80]), api.loc(st))
+    ctx.floor(rule, 'stores into parsed structures while a handle is built', n, 2)
